@@ -1300,13 +1300,13 @@ class Interp:
         for a in node.names:
             target = base + "." + a.name
             val = ModuleRef(target)
-            if node.level:
+            h = self.pack.models.get("import:" + target)
+            if h is not None:
+                val = h(self)  # the pack's stand-in for this name takes precedence over reading the other module
+            elif node.level:
                 r = self.pack.resolve_import(env.module, target)
                 if r is not None and r[1] is not None:
                     val = self.global_lookup(r[1], r[0])
-            h = self.pack.models.get("import:" + target)
-            if h is not None:
-                val = h(self)
             env.assign(a.asname or a.name, val)
 
     def s_Global(self, node, env):
